@@ -126,7 +126,7 @@ func newExecutor(ctx context.Context, r *Request) (*executor, *Error) {
 
 func (e *executor) executeQuery(initialValue any) (*OrderedMap, []*Error) {
 	queryType := e.Schema.QueryType()
-	if !schema.IsObjectType(queryType) {
+	if queryType == nil {
 		return nil, []*Error{newError(e.Operation, "This schema cannot perform queries.")}
 	}
 	if data, err := wait(e, e.executeSelections(e.Operation.SelectionSet.Selections, queryType, initialValue, nil, false)); err != nil {
@@ -140,7 +140,7 @@ func (e *executor) executeQuery(initialValue any) (*OrderedMap, []*Error) {
 
 func (e *executor) executeMutation(initialValue any) (*OrderedMap, []*Error) {
 	mutationType := e.Schema.MutationType()
-	if !schema.IsObjectType(mutationType) {
+	if mutationType == nil {
 		return nil, []*Error{newError(e.Operation, "This schema cannot perform mutations.")}
 	}
 	if data, err := wait(e, e.executeSelections(e.Operation.SelectionSet.Selections, mutationType, initialValue, nil, true)); err != nil {
@@ -154,7 +154,7 @@ func (e *executor) executeMutation(initialValue any) (*OrderedMap, []*Error) {
 
 func (e *executor) subscribe(initialValue any) (any, *Error) {
 	subscriptionType := e.Schema.SubscriptionType()
-	if !schema.IsObjectType(subscriptionType) {
+	if subscriptionType == nil {
 		return nil, newError(e.Operation, "This schema cannot perform subscriptions.")
 	}
 
@@ -201,7 +201,7 @@ func (e *executor) subscribe(initialValue any) (any, *Error) {
 
 func (e *executor) executeSubscriptionEvent(initialValue any) (*OrderedMap, []*Error) {
 	subscriptionType := e.Schema.SubscriptionType()
-	if !schema.IsObjectType(subscriptionType) {
+	if subscriptionType == nil {
 		return nil, []*Error{newError(e.Operation, "This schema cannot perform subscriptions.")}
 	}
 	if data, err := wait(e, e.executeSelections(e.Operation.SelectionSet.Selections, subscriptionType, initialValue, nil, false)); err != nil {
